@@ -89,7 +89,9 @@ var htmlByteTemplates = []string{
 }
 
 var sqlDomain = &domain{name: "sql", corpus: gen.CorpusSQL, seps: []string{"", " ", " ", " ", "\t", "\n", "\v", "\f", "\r", "\xa0", "\x00", "/**/", "/*x*/", "+", "("},
-	openers: gen.SQLOpeners, mutDict: gen.SQLExt, scale: sqlScale, sig: sqlSig, byteTemplates: sqlByteTemplates, fillers: []string{" ", "a", "/* filler */", "1,", "x ", "(", ")", "\x00", "\n", "+", "''", "1+1-", "not ", "\xa0"}}
+	openers: gen.SQLOpeners, mutDict: gen.SQLExt, scale: sqlScale, sig: sqlSig, byteTemplates: sqlByteTemplates, fillers: []string{" ", "a", "/* filler */", "1,", "x ", "(", ")", "\x00", "\n", "+", "''", "1+1-", "not ", "\xa0"},
+	wraps: [][2]string{{"/*", "*/"}, {"'", "'"}, {" /*", "*/ "}, {"\"", "\""}, {"--", "\n"}, {"`", "`"}, {"[", "]"}, {"$$", "$$"}}}
 
 var htmlDomain = &domain{name: "html", corpus: gen.CorpusHTML, seps: []string{"", " ", " ", "\t", "\n", "\f", "\r", "/", "\x00", "\v"},
-	openers: gen.HTMLOpeners, mutDict: gen.HTMLFull, scale: htmlScale, sig: htmlSig, byteTemplates: htmlByteTemplates, fillers: []string{" ", "x", "<b>t</b>", "lorem ipsum ", "a=b ", "/", "\x00", "\n", "<!--c-->", "'", "word \n", "\t"}}
+	openers: gen.HTMLOpeners, mutDict: gen.HTMLFull, scale: htmlScale, sig: htmlSig, byteTemplates: htmlByteTemplates, fillers: []string{" ", "x", "<b>t</b>", "lorem ipsum ", "a=b ", "/", "\x00", "\n", "<!--c-->", "'", "word \n", "\t"},
+	wraps: [][2]string{{"<!--", "-->"}, {"<a b='", "'>"}, {"<a href=\"", "\">"}, {"<![CDATA[", "]]>"}, {"<a ", ">"}, {"<%", "%>"}, {"'", "'"}, {"<a href=", " >"}}}
